@@ -240,7 +240,8 @@ _cache = {}
 
 
 def normal(prog, f, skip=(), depth=2):
-    k = (id(prog), f.key, tuple(sorted(skip)), depth)
+    _cache = prog.__dict__.setdefault('_normal_cache', {})
+    k = (f.key, id(f.node), tuple(sorted(skip)), depth)
     if k in _cache:
         return _cache[k]
     f0 = f
